@@ -312,14 +312,14 @@ pub fn run(args: &Args) -> Report {
     let t0 = now();
     let sizes: Vec<u32> = if args.thorough { vec![1, 2, 3, 4, 5, 6, 7, 8, 12, 16, 64, 100, 256, 512, 513, 1000, 1024, 2048, 4096, 8192, 16384, 32768] } else { SIZES.to_vec() };
     let mut items = Vec::new();
+    // one forked shard per (flag set, size): a fault inside set-up or drop costs that one size only
     for flags in flag_candidates() {
-        let sizes = sizes.clone();
-        items.push(isolated(format!("drop-{}", flags_name(flags)), move || {
-            let mut r = Report::new();
-            // warm the allocator and /proc readers so that the map count comparison sees a steady state
-            let _ = (sysx::fd_table(), maps_lines());
-            let mut status = String::new();
-            for &e in &sizes {
+        for &e in &sizes {
+            items.push(isolated(format!("drop-{}-{e}", flags_name(flags)), move || {
+                let mut r = Report::new();
+                // warm the allocator and /proc readers so that the map comparison sees a steady state
+                let _ = (sysx::fd_table(), maps_lines());
+                let mut status = String::new();
                 for used in [false, true] {
                     for interpose in [false, true] {
                         let unusable = flags & (rusl::platform::IoUringParamFlags::IORING_SETUP_IOPOLL.bits() | rusl::platform::IoUringParamFlags::IORING_SETUP_R_DISABLED.bits()) != 0;
@@ -329,10 +329,12 @@ pub fn run(args: &Args) -> Report {
                         status = drop_case(e, flags, used, interpose, &mut r, false);
                     }
                 }
-            }
-            r.note(format!("set-up flags {}: {status}", flags_name(flags)));
-            r
-        }));
+                if e == 1 {
+                    r.note(format!("set-up flags {}: {status}", flags_name(flags)));
+                }
+                r
+            }));
+        }
     }
     let mut r = run_isolated(items, &args.out, "C18");
     r.rule = "every (ring size, flag set the wrapper's type offers singly or as a kernel-required pair, unused / after one completed operation, plain / with an unrelated mapping interposed after each munmap) \
